@@ -1,8 +1,10 @@
 (* C08_Extract.v — executable entry points of the C08 model at the list instance,
-   for the correspondence check.  ExtrOcamlBasic only.  The square-root oracle
-   (Eigen's LDL^T-based factor) is supplied by the driver. *)
+   for the correspondence check.  ExtrOcamlBasic only.  The square root used for the
+   proposal draws is the Gallina LDL^T of C08_Model (ldlt_sqrt); the record's msqrt
+   oracle is only used by the unscented wrapped steps (C05's sigma points: a factor
+   equivalent to Eigen's U sqrt(S)) and is supplied by the driver. *)
 Require Import ZArith List.
-Require Import BFL.Ops BFL.ListOps BFL.Density BFL.C01_Model BFL.C08_Model.
+Require Import BFL.Ops BFL.ListOps BFL.Density BFL.C01_Model BFL.C05_Model BFL.C08_Model.
 Require Import Extraction ExtrOcamlBasic.
 Import ListNotations.
 
@@ -25,34 +27,59 @@ Definition c08_trans (S : SOps) sq (n : nat) (kind : nat) (Ft Qt : lmx S)
   | _ => @cauchy_trans (c08_O S sq) n Ft
   end.
 
-(* per step: measurement y, validity of measure(), scripted validity of the
-   likelihood model, the draws (one n x 1 matrix per particle) *)
-Definition step_tuple (S : SOps) : Type := (lmx S * bool * bool * list (lmx S))%type.
+(* the fixed part of a scenario *)
+Record c08_cfg (S : SOps) := mkCfg {
+  cf_wrap : nat;                       (* 0 KF, 1 UKF (additive), 2 SUKF *)
+  cf_ut : T S * T S * T S;             (* alpha, beta, kappa *)
+  cf_hkind : nat;                      (* C05_Model.h_family *)
+  cf_H : lmx S; cf_G : lmx S; cf_G2 : lmx S; cf_b : lmx S; cf_g : lmx S;
+  cf_R : lmx S; cf_F : lmx S; cf_Q : lmx S;
+  cf_scale : T S;
+  cf_tkind : nat; cf_Ft : lmx S; cf_Qt : lmx S
+}.
 
-Definition c08_step_in (S : SOps) sq (n m : nat) (F Q H R : lmx S) (scale : T S)
-           (tkind : nat) (Ft Qt : lmx S) (s : step_tuple S) : step_in (c08_O S sq) n :=
-  let '(y, mv, lok, zs) := s in
-  @mkStepIn (c08_O S sq) n
-    (@kf_pred_gstep (c08_O S sq) n F Q)
-    (@kf_corr_gstep (c08_O S sq) n m mv H R y)
-    (@scripted_lik (c08_O S sq) n lok (@gauss_lik (c08_O S sq) n m scale mv H R y))
-    (c08_trans S sq n tkind Ft Qt)
-    zs.
+(* per step: measurement y; gc_usable = the wrapped correction can use the measurement;
+   the four validity flags seen by GaussianLikelihood; scripted validity of the likelihood
+   model; skip flags (PFPrediction, GaussianPrediction, PFCorrection, GaussianCorrection);
+   the draws (one n x 1 matrix per particle) *)
+Definition step_tuple (S : SOps) : Type :=
+  (lmx S * bool * (bool * bool * bool * bool) * bool * (bool * bool * bool * bool) * list (lmx S))%type.
+
+Definition c08_step_in (S : SOps) sq (n m : nat) (cf : c08_cfg S) (s : step_tuple S)
+  : step_in (c08_O S sq) n * (bool * bool) :=
+  let '(y, usable, (v1, v2, v3, v4), lok, (sk_pp, sk_gp, sk_pc, sk_gc), zs) := s in
+  let O := c08_O S sq in
+  let '(alpha, beta, kappa) := cf_ut S cf in
+  let h := @h_family O n m (cf_hkind S cf) (cf_H S cf) (cf_G S cf) (cf_G2 S cf) (cf_b S cf) (cf_g S cf) in
+  let w := @ut_weights O n alpha beta kappa in
+  let gc : gstep O n :=
+    if sk_gc then @copy_gstep O n
+    else match cf_wrap S cf with
+         | 0 => @kf_corr_gstep O n m usable (cf_H S cf) (cf_R S cf) y
+         | 1 => @ukf_corr_gstep O n m usable w h (cf_R S cf) y
+         | _ => @sukf_corr_gstep O n m usable w h (cf_R S cf) y
+         end in
+  let gp : gstep O n := if sk_gp then @copy_gstep O n else @kf_pred_gstep O n (cf_F S cf) (cf_Q S cf) in
+  (@mkStepIn O n gp gc
+     (@scripted_lik O n lok (@gauss_lik_h O n m (cf_scale S cf) v1 v2 v3 v4 h (cf_R S cf) y))
+     (c08_trans S sq n (cf_tkind S cf) (cf_Ft S cf) (cf_Qt S cf))
+     zs,
+   (sk_pp, sk_pc)).
 
 (* result per step: predicted set, corrected set, validity, likelihood values *)
-Definition c08_trace (S : SOps) sq (n m : nat) (F Q H R : lmx S) (scale : T S)
-           (tkind : nat) (Ft Qt : lmx S)
-           (pred0 corr0 : list (ptuple S)) (steps : list (step_tuple S))
+Definition c08_trace (S : SOps) sq (n m : nat) (cf : c08_cfg S)
+           (pred0 corr0 : list (ptuple S)) (valid0 : bool) (lik0 : list (T S)) (steps : list (step_tuple S))
   : list (list (ptuple S) * list (ptuple S) * bool * list (T S)) :=
   let st0 := @mkFstate (c08_O S sq) n (map (c08_of_tuple S sq n) pred0)
-                       (map (c08_of_tuple S sq n) corr0) false [] in
+                       (map (c08_of_tuple S sq n) corr0) valid0 lik0 in
   map (fun st => (map (c08_to_tuple S sq n) (fs_pred st), map (c08_to_tuple S sq n) (fs_corr st),
                   fs_valid st, fs_lik st))
-      (gpf_trace st0 (map (c08_step_in S sq n m F Q H R scale tkind Ft Qt) steps)).
+      (pf_trace st0 (map (c08_step_in S sq n m cf) steps)).
 
-(* the per-particle ingredients of the weight update of one correction, for the
-   oracle: proposal density q_i at the drawn position *)
+(* proposal density and square-root factor, for the oracle / the comparison with the
+   factor observed on the implementation *)
 Definition c08_proposal (S : SOps) sq (n : nat) (x m P : lmx S) : T S :=
   @evaluate_proposal (c08_O S sq) n x m P.
+Definition c08_ldlt (S : SOps) sq (n : nat) (P : lmx S) : lmx S := @ldlt_sqrt (c08_O S sq) n P.
 
-Extraction "C08_model.ml" c08_trace c08_proposal.
+Extraction "C08_model.ml" c08_trace c08_proposal c08_ldlt.
